@@ -93,6 +93,23 @@ def write(dobj):
     return etree.tostring(dobj.to_xml_tree())
 
 
+_OTHER = []
+
+
+def other_definition():
+    """A definition unlike any under test in everything the writer takes from the definition object rather than from its content
+    (namespace, prefix, space system name, header attributes). It is written between the two writes of a definition under test."""
+    if not _OTHER:
+        from space_packet_parser.xtce import containers, definitions
+        from harness import defs
+        root = containers.SequenceContainer("OTHER_ROOT", defs.header_params([f"O{i}" for i in range(7)]), short_description="other",
+                                            long_description="a different document")
+        _OTHER.append(definitions.XtcePacketDefinition([root], ns={"o": "http://example.org/other-xtce", "xsi": "http://www.w3.org/2001/XMLSchema-instance"},
+                                                       xtce_ns_prefix="o", root_container_name="OTHER_ROOT", space_system_name="OTHER_SYSTEM",
+                                                       validation_status="Released", xtce_version="9.9", date="1999-01-01T00:00:00"))
+    return _OTHER[0]
+
+
 def cycles(dobj, n=3):
     """orders after build and after each of n write/load cycles, the serialized documents G1..Gn+1, and checks."""
     from lxml import etree
@@ -105,6 +122,7 @@ def cycles(dobj, n=3):
     for k in range(n + 1):
         before = project.project(cur)
         g_a = write(cur)
+        write(other_definition())       # writing is a function of the definition written: another document in between changes nothing
         g_b = write(cur)
         if g_a != g_b:
             probs.append(f"two writes of the same definition differ (cycle {k})")
